@@ -84,6 +84,10 @@ func C03(p *core.Prog, rep *core.Report) {
 	v.vf3Replay()
 	ps8Readers(p, rep, "read")
 	eof1(p, rep)
+	// Open's own adoption step and the marker it trusts are crash points of this property too
+	mc := newMergeCtx(p, rep)
+	mc.ps5Adoption()
+	mc.mg2MarkerID()
 	rep.Notes = append(rep.Notes, "reading the code suggests the tree does not tolerate a torn tail (ErrInvalidCRC aborts Open; an MMap file left 512 MiB-extended by a crash reads as zero chunks): that is the undecided behavioural clause, a note for whoever applies a dynamic technique, not a claim of this machinery")
 	rep.NotCovered = append(rep.NotCovered, "which mapping a cut-off directory image re-opens to, for every crash instant and tail length (the deciding behaviour of this property); only necessary structural conditions are decided")
 }
@@ -190,6 +194,34 @@ func eof1(p *core.Prog, rep *core.Report) {
 			}
 		}
 		rep.Check(len(bad2) == 0, "EOF1", "complete-record:"+core.FuncKey(fn), "a record is returned only after its last chunk", p.Pos(fn.Pos()), strings.Join(sortedStr(bad2), "; "), true)
+		if core.RecvNamed(fn) == p.R.DataReader {
+			// CD3c: the sequential reader re-evaluates the block-tail predicate after EVERY record end (whatever
+			// chunk type ended it), because the writer pads whenever a tail is too short
+			bs := blockSizeConst(p)
+			hdr := layoutOf(p, chunkWriter(p), true).typ + 1
+			tails, _ := tailPredicates(fn, bs, hdr)
+			isTail := map[*ssa.If]bool{}
+			for _, t := range tails {
+				isTail[t] = true
+			}
+			var bad3 []string
+			eng3 := core.NewEngine(p, core.Hooks{
+				Name:   "CD3c",
+				Follow: func(f *ssa.Function) bool { return false },
+				Edge: func(x *core.Exec, iff *ssa.If, taken bool, a core.AState) (core.AState, bool) {
+					if isTail[iff] {
+						return "K", true
+					}
+					return a, true
+				},
+			})
+			for _, e := range eng3.Run(fn, "N", "") {
+				if e.Cls == core.ClsSuccess && e.A != "K" {
+					bad3 = append(bad3, "success return at "+p.InstrPos(e.Ret)+" without evaluating the block-tail predicate: when the record ended in a tail too short for a header the next call decodes padding (CRC error) or stops early")
+				}
+			}
+			rep.Check(len(tails) > 0 && len(bad3) == 0, "CD3", "skip-after-every-record:"+core.FuncKey(fn), "the block-tail predicate is evaluated on every path to a returned record", p.Pos(fn.Pos()), strings.Join(sortedStr(bad3), "; "), true)
+		}
 	}
 	if n < 3 {
 		core.Failf("vacuity guard: EOF1 expected >= 3 io.EOF returns in the chunk readers, found %d", n)
@@ -543,6 +575,142 @@ func tb7Backup(p *core.Prog, rep *core.Report) {
 	if n < 2 {
 		core.Failf("vacuity guard: TB7 expected the size resets and the copy in Backup, found %d calls", n)
 	}
+	// every mmap file is shrunk before the copy: the active file and, in a loop, each rotated file (a rotated file
+	// does not stay trimmed: the first read after a reset re-extends it, and so does reopening)
+	active, older := false, false
+	for _, b := range bk.Blocks {
+		for _, in := range b.Instrs {
+			ci, ok := in.(ssa.CallInstruction)
+			if !ok {
+				continue
+			}
+			c := ci.Common().StaticCallee()
+			if c == nil || core.RecvNamed(c) != R.MMap {
+				continue
+			}
+			for _, o := range core.Origins(ci.Common().Args[0]) {
+				if ta, ok := o.(*ssa.TypeAssert); ok {
+					o = ta.X
+				}
+				f, fb := core.LoadedField(o)
+				if f != R.DFReadWriter {
+					continue
+				}
+				for _, o2 := range core.Origins(fb) {
+					if f2, _ := core.LoadedField(o2); f2 == R.DBActive {
+						active = true
+					}
+					if e, ok := o2.(*ssa.Extract); ok {
+						if nx, ok := e.Tuple.(*ssa.Next); ok {
+							if rg, ok := nx.Iter.(*ssa.Range); ok {
+								if f3, _ := core.LoadedField(rg.X); f3 == R.DBOlder {
+									older = true
+								}
+							}
+						}
+					}
+				}
+			}
+		}
+	}
+	rep.Check(active && older, "TB7", "reset-covers-all-files", "under mmap the size reset is applied to the active file and to every rotated file", p.Pos(bk.Pos()), fmt.Sprintf("active file reset: %v, loop over the rotated files: %v - a file left at its 512 MiB mapped size is copied with a zero tail and the backup fails to open (invalid CRC)", active, older), true)
+}
+
+// tb6bUnmappedUse: after a size reset the mapping is gone; every MMap method must cope with that.
+// States: U unmapped (entry: any method may be the first call after a reset), M mapped.
+func tb6bUnmappedUse(p *core.Prog, rep *core.Report) {
+	R := p.R
+	rep.Rule("TB6b", "unmapped state is handled: entering any MMap method in state 'unmapped' (the state a size reset leaves behind), the mapping is used (Flush, indexing, slicing) only after the remapping helper succeeded or on the non-nil edge of a test of the mapping; the remapping helper (the method that calls mmap.MapRegion) is trusted to map on success because the reset invalidates its bound (TB6)")
+	var remap *ssa.Function
+	for _, fn := range p.LibFuncs() {
+		if core.RecvNamed(fn) != R.MMap {
+			continue
+		}
+		for _, b := range fn.Blocks {
+			for _, in := range b.Instrs {
+				if calleeIs(in, "github.com/edsrzf/mmap-go.MapRegion") {
+					remap = fn
+				}
+			}
+		}
+	}
+	if remap == nil {
+		core.Failf("role unresolved: MMap remapping helper (caller of mmap.MapRegion)")
+	}
+	n := 0
+	ms := p.SSA.MethodSets.MethodSet(types.NewPointer(R.MMap))
+	for i := 0; i < ms.Len(); i++ {
+		fn := p.SSA.MethodValue(ms.At(i))
+		if fn == nil || fn.Blocks == nil || fn == remap || !ms.At(i).Obj().Exported() {
+			continue
+		}
+		var bad []string
+		uses := 0
+		eng := core.NewEngine(p, core.Hooks{
+			Name:   "TB6b",
+			Follow: func(f *ssa.Function) bool { return core.RecvNamed(f) == R.MMap && f != remap },
+			Edge: func(x *core.Exec, iff *ssa.If, taken bool, a core.AState) (core.AState, bool) {
+				bo, ok := iff.Cond.(*ssa.BinOp)
+				if !ok || !core.IsNilConst(bo.Y) {
+					return a, true
+				}
+				if f, _ := core.LoadedField(bo.X); f == R.MMapMap {
+					nonNil := (bo.Op == token.NEQ) == taken
+					if nonNil {
+						return "M", true
+					}
+					return "U", true
+				}
+				return a, true
+			},
+			Step: func(x *core.Exec, in ssa.Instruction, a core.AState) ([]core.StepOut, bool) {
+				if ci, ok := in.(ssa.CallInstruction); ok {
+					c := ci.Common()
+					if c.StaticCallee() == remap {
+						return []core.StepOut{{A: "M", Fact: true, Idx: -1, Truth: 0}, {A: a, Fact: true, Idx: -1, Truth: 1}}, true
+					}
+					if calleeIs(in, "(*github.com/edsrzf/mmap-go.MMap).Unmap") {
+						if a == "U" {
+							bad = append(bad, "Unmap at "+p.InstrPos(in)+" while nothing is mapped")
+						}
+						return []core.StepOut{{A: "U"}}, true
+					}
+					if calleeIs(in, mmapFlush, "(github.com/edsrzf/mmap-go.MMap).Lock", "(github.com/edsrzf/mmap-go.MMap).Unlock") {
+						uses++
+						if a == "U" {
+							bad = append(bad, "the mapping is flushed at "+p.InstrPos(in)+" in state unmapped (msync of an empty region fails with EINVAL): after a Backup the source cannot sync / rotate until something happens to read or write the file")
+						}
+					}
+				}
+				// indexing / slicing the mapping
+				var x0 ssa.Value
+				switch t := in.(type) {
+				case *ssa.Slice:
+					x0 = t.X
+				case *ssa.IndexAddr:
+					x0 = t.X
+				}
+				if x0 != nil {
+					if f, _ := core.LoadedField(x0); f == R.MMapMap {
+						uses++
+						if a == "U" {
+							bad = append(bad, "the mapping is accessed at "+p.InstrPos(in)+" in state unmapped")
+						}
+					}
+				}
+				return nil, false
+			},
+		})
+		eng.Run(fn, "U", "")
+		if uses == 0 {
+			continue
+		}
+		n++
+		rep.Check(len(bad) == 0, "TB6b", "unmapped-handled:"+core.FuncKey(fn), "the method copes with being the first call after a size reset", p.Pos(fn.Pos()), strings.Join(sortedStr(bad), "; "), true)
+	}
+	if n < 3 {
+		core.Failf("vacuity guard: TB6b expected >= 3 MMap methods using the mapping, found %d", n)
+	}
 }
 
 // cp1CopyComplete: the directory copy writes every entry it does not exclude.
@@ -593,6 +761,7 @@ func cp1CopyComplete(p *core.Prog, rep *core.Report) {
 
 func C20(p *core.Prog, rep *core.Report) {
 	tb6ResetProtocol(p, rep)
+	tb6bUnmappedUse(p, rep)
 	tb7Backup(p, rep)
 	cp1CopyComplete(p, rep)
 	copyDir := p.Func(core.ModPath+"/utils", "CopyDir")
